@@ -753,7 +753,9 @@ def numpy_binning(
         edges = np.linspace(start, stop, bin_count + 1)
         if (np.diff(edges) == 0).any():
             edge = edges[0]
-            edges = np.array([edge := np.nextafter(edge, np.inf) for _ in edges])
+            edges = np.array(
+                [edge] + [edge := np.nextafter(edge, np.inf) for _ in edges[1:]]
+            )
             # raise ValueError(
             #    f"Range too narrow to split into {bin_count} bins: {start} to {stop}."
             # )
